@@ -13,6 +13,11 @@ def witness_for(prop, failure, scratch, seed):
         return failure['witness']
     try:
         import witness
+        if prop == 'C01' and failure.get('kind') in ('safety', 'pre'):
+            # a panic of the working tree is conclusive without any reference tree
+            w = witness.search(prop, failure, scratch, seed, panic_only=True)
+            if w:
+                return w
         return witness.search(prop, failure, scratch, seed)
     except ImportError:
         return None
